@@ -77,6 +77,8 @@ def run(check):
     for i in range(n):
         cfg = {"cc": rnd.choice(["reno", "cubic"]), "version": rnd.choice(["v1", "v2", "v1->v2"])}
         prof = "cids" if i % 4 else "migrate"
+        if i % 3 == 0:            # peers that allow fewer (or as many) active connection IDs than aioquic is ready to issue
+            cfg["cid_limit"] = {"c": rnd.choice([2, 3, 4, 7, 8]), "s": rnd.choice([2, 3, 4, 7, 8])}
         jobs.append({"cfg": cfg, "script": script.random_script(rnd, rnd.choice([25, 60, 100]), script.PROFILES[prof]),
                      "seed": rnd.randrange(1 << 30), "hs_adv": False, "profile": prof})
     # connection IDs changed while the sender is congestion-limited by a bulk transfer
@@ -90,6 +92,19 @@ def run(check):
                                        ["ncid", "s", 2, 0], ["ncid", "s", 6, 0], ["changecid", "c"], ["changecid", "c"],
                                        ["ncid", "s", 6, 0], ["write", "c", 0, 10, True], ["deliver", 0], ["deliver", 0]],
                  "seed": 1, "hs_adv": False, "profile": "corpus-rpt"})
+    # corpus: NEW_CONNECTION_ID 9 overtakes 8, then Retire Prior To 9 arrives, then the ID in use changes
+    T = ["tick", 30000]
+    # (the datagram with ID 8 is lost and retransmitted after ID 9 arrived; then a key-holding peer repeats the frame of ID 9 with
+    # Retire Prior To 9; then the application changes the ID in use)
+    jobs.append({"cfg": {}, "script": [T, ["changecid", "c"], ["timer", "c"], ["deliver", 0], ["drop", 0], T, ["changecid", "c"], ["timer", "c"],
+                                       ["deliver", 0], ["deliver", 0], ["pump", 40], ["ncid", "s", 8, 0], T, ["changecid", "c"], ["timer", "c"],
+                                       ["write", "c", 0, 10, True], ["timer", "c"], ["pump", 20]],
+                 "seed": 2, "hs_adv": False, "profile": "corpus-rpt-between-reordered-ids"})
+    for lim in (2, 3, 7):
+        jobs.append({"cfg": {"cid_limit": {"c": lim, "s": lim}},
+                     "script": [T, ["changecid", "c"], ["timer", "c"], ["deliver", 0], ["deliver", 0], T, ["changecid", "s"], ["timer", "s"],
+                                ["deliver", 0], ["deliver", 0], ["write", "c", 0, 10, True], ["deliver", 0]],
+                     "seed": 3, "hs_adv": False, "profile": "corpus-small-peer-limit"})
     results = runner.run_many(job_fn, jobs)
     judge(check, jobs, results, "TraceCid_V")
     for job, res in zip(jobs, results):
